@@ -70,13 +70,16 @@ Definition updz (m : Z -> Z) (k : Z) (v : Z) : Z -> Z := fun x => if x =? k then
 Record store := mkStore { smap : fmap; sver : Z -> Z }.
 
 (* scripted behaviour of one callback: normal / an error / an error that reads as "not found" / "nil, no error":
-   a load of a missing row answers (nil, nil); an add stores nothing, an update / upsert leaves no row, and answer nil *)
-Inductive fault := FOk | FErr | FNF | FNil.
+   a load of a missing row answers (nil, nil); an add stores nothing, an update / upsert leaves no row, and answer nil;
+   FErrV / FNFV: the callback fails like FErr / FNF and hands back a non-nil value TOGETHER with its error (ORM style
+   `return &row, err`): the handlers look at the error first, so this is a failed callback like any other - the
+   value goes nowhere (c15_value_with_error_is_an_error) *)
+Inductive fault := FOk | FErr | FNF | FNil | FErrV | FNFV.
 Inductive err := EInj | ENotFound | EExists | EMissing | EDupKey | EClosed | EFull | ECtx.
 Inductive sres := SOk (v : val) | SErr (e : err).    (* answer of a value-returning callback *)
 
 Definition ferr (f : fault) : option err :=
-  match f with FOk | FNil => None | FErr => Some EInj | FNF => Some ENotFound end.
+  match f with FOk | FNil => None | FErr | FErrV => Some EInj | FNF | FNFV => Some ENotFound end.
 Definition is_fnil (f : fault) : bool := match f with FNil => true | _ => false end.
 Definition s_unrow (s : store) (k : Z) : store := mkStore (upd (smap s) k None) (sver s).
 
